@@ -8,6 +8,7 @@ package security
 //@ spec aclApplies(res string, act string, path string, need string) bool = matches(res, path) && grants(act, need)
 
 //@ unit (*ServiceCore).checkMatches
+//@   opt replay
 //@   prop C16
 //@   requires ac != nil
 //@   ensures [applies] result == aclApplies(ac.Resource, ac.Action, resource, action)
@@ -15,6 +16,7 @@ package security
 //@   safe slice
 
 //@ unit (*ServiceCore).CheckGranted
+//@   opt replay
 //@   prop C16
 //@   requires ac != nil
 //@   ensures [decision] result == (aclApplies(ac.Resource, ac.Action, resource, action) && !ac.Deny)
